@@ -168,6 +168,27 @@ def _norm_block(V, rng, tier):
             dist["in-place edit: " + edit] = dist.get("in-place edit: " + edit, 0) + 1
         except Exception as ex:
             V.fail("norm block raises %s" % type(ex).__name__, dict(desc, exc=str(ex)[:200]))
+    # axes given as numpy integers (what np.nonzero / np.argsort / a loop over np.arange hand out): the same sums and partial inner products
+    for j in range(8 if tier == "quick" else 60):
+        cplx = j % 3 == 1; ttm = j % 4 == 3
+        d = rng.choice([2, 3, 4]); x = (gen_ttm(rng, cplx, d=d) if ttm else gen_tt(rng, cplx, d=d)).impl([], torch.complex128 if cplx else torch.float64)
+        ax = sorted(rng.sample(range(d), rng.randint(1, d))); npt = [np.int64, np.int32, np.intp][j % 3]
+        desc = {"numpy_integer_axes": True, "ttm": ttm, "N": [int(v) for v in x.N], "axes": ax, "type": npt.__name__}
+        try:
+            forms = [("list", [npt(a) for a in ax])] + ([("bare", npt(ax[0]))] if len(ax) == 1 else [])
+            for nm, idx in forms:
+                got = x.sum(idx); ref = x.sum([int(a) for a in ax])
+                gf = got.full() if isinstance(got, torchtt.TT) else got; rf = ref.full() if isinstance(ref, torchtt.TT) else ref
+                dense = x.full().sum(dim=(ax + [d + a for a in ax]) if ttm else ax)
+                if list(gf.shape) != list(dense.shape) or not (float((gf - dense).abs().max()) <= 1e-10 * max(1.0, float(dense.abs().max()))): V.fail("sum over axes given as numpy integers (%s) differs from the dense sum" % nm, desc)
+            if not ttm:
+                y = gen_tt(rng, cplx, N=[int(x.N[a]) for a in ax]).impl([], torch.complex128 if cplx else torch.float64)
+                got = torchtt.dot(x, y, [npt(a) for a in ax]); ref = torchtt.dot(x, y, [int(a) for a in ax])
+                gf = got.full() if isinstance(got, torchtt.TT) else got; rf = ref.full() if isinstance(ref, torchtt.TT) else ref
+                if list(gf.shape) != list(rf.shape) or not (float((gf - rf).abs().max()) <= 1e-10 * max(1.0, float(rf.abs().max()))): V.fail("dot along axes given as numpy integers differs from the same call with Python ints", desc)
+        except Exception as ex:
+            V.fail("sum / dot with axes given as numpy integers raises %s" % type(ex).__name__, dict(desc, exc=str(ex)[:200]))
+        dist["axes as numpy integers"] = dist.get("axes as numpy integers", 0) + 1
     return {"norm_cancellation_and_in_place_cases": dist}
 
 def run(tier, seed, replay=None):
